@@ -89,6 +89,35 @@ def run(payload):
             want = s.laplace(bc).data
             if not np.allclose(got, want, rtol=1e-10):
                 fails.append({"id": "shared_user_funcs", "bc": bc, "backend": backend, "max_dev": float(np.max(np.abs(got - want)))})
+    # ---- the same request on two grids of one class that differ only by a shift of their bounds
+    from pde import CylindricalSymGrid, PolarSymGrid, SphericalSymGrid
+    pairs = [(SphericalSymGrid((1, 2), 8), SphericalSymGrid((2, 3), 8)), (PolarSymGrid((0.5, 2.5), 6), PolarSymGrid((1.5, 3.5), 6)),
+             (CylindricalSymGrid((1, 3), (0, 2), (4, 3)), CylindricalSymGrid((2, 4), (0, 2), (4, 3))),
+             (CartesianGrid([(0, 2)], 8), CartesianGrid([(3, 5)], 8))]
+    for ga, gb in pairs:
+        bc = {"x-": {"value_expression": "x**2"}, "x+": {"derivative": 0}} if isinstance(ga, CartesianGrid) else "auto_periodic_neumann"
+        for backend in ("numba",):
+            cases += 1
+            try:
+                outs = []
+                for g in (ga, gb):
+                    f = ScalarField(g, np.cos(np.arange(np.prod(g.shape), dtype=float)).reshape(g.shape))
+                    outs.append((g.make_operator("laplace", bc, backend=backend)(f.data), f.laplace(bc, backend=backend).data))
+            except Exception as e:
+                fails.append({"id": "history_error", "where": "shifted grids", "error": f"{type(e).__name__}: {e}"})
+                continue
+            got, want = outs[1]
+            if not np.allclose(got, want, rtol=1e-9, atol=1e-11):
+                fails.append({"id": "operator_of_an_earlier_grid_reused", "grids": [repr(ga), repr(gb)], "backend": backend, "max_dev": float(np.max(np.abs(got - want)))})
+    # ---- one field, requests that differ in a single numeric argument (small integers and their negatives)
+    g = UnitGrid([4])
+    for a, b in ((-1, -2), (-2, -1), (0, -1), (1, 2), (-1.0, -2.0), (2, -2)):
+        f = ScalarField(g, [1.0, 2.0, 3.0, 4.0])
+        cases += 1
+        first = float(f.interpolate([10.0], fill=a))
+        second = float(f.interpolate([10.0], fill=b))
+        if first != a or second != b:
+            fails.append({"id": "numeric_argument_ignored_after_earlier_request", "call": f"interpolate([10.], fill={a!r}) then fill={b!r}", "got": [first, second], "want": [a, b]})
     return {"ok": True, "cases": cases, "failures": fails[:6]}
 
 
